@@ -96,7 +96,7 @@ pub fn run(rep: &mut Report) {
                 distinct = distinct (inputs, tree, options)"
         .to_string();
     let mut rng = Rng::new(rep.seed ^ 0xC06);
-    let n = rep.budget(30, 20);
+    let n = rep.budget(90, 8);
     for c in 0..n {
         let dir = rep.workdir.join(format!("case{}", c));
         let _ = std::fs::remove_dir_all(&dir);
